@@ -867,7 +867,7 @@ Proof.
     apply vmatch_dom_true with (g := g); [assumption | now apply Hrd, HWall | now symmetry]. }
   destruct Hinv as (Hok & Hdom & Hbase).
   apply (@find_loop_complete g rules q W Hrd Hf Ht HWne HWall HWl Hav (default_fuel rules) 1 c).
-  - repeat split; assumption.
+  - split; [assumption | split; assumption].
   - apply le_n.
   - now apply covered_1.
   - unfold default_fuel. lia.
@@ -880,7 +880,7 @@ Lemma in_domain_elim rules A B : in_domain rules A B = true ->
   short A <> short B /\ exists g, dom g A /\ dom g B /\ rules_dom g rules.
 Proof.
   unfold in_domain. rewrite andb_true_iff, negb_true_iff, N.eqb_neq. intros [H1 H2]. split; [exact H2|].
-  destruct (@one_group_dom _ H1) as (g & Hg). exists g. repeat split.
+  destruct (@one_group_dom _ H1) as (g & Hg). exists g. split; [|split].
   - apply Hg. now left.
   - apply Hg. right. now left.
   - apply versions_of_dom. intros v Hv. apply Hg. right. now right.
@@ -896,13 +896,6 @@ Proof.
   - apply negb_true_iff. destruct (reachable rules (r_from q) (r_to q)) eqn:Er; [|reflexivity].
     destruct (@find_complete g rules c q Hrd Hf Ht Hne Hinv Er) as (p & Hp). congruence.
 Qed.
-
-Fixpoint all_P_search (rules : list rule) (qs : list rule) (answers : list (option (list rule))) : bool :=
-  match qs, answers with
-  | [], [] => true
-  | q :: qs', a :: as' => P_search rules (fst q) (snd q) a && all_P_search rules qs' as'
-  | _, _ => false
-  end.
 
 Definition queries_dom (g : N) (qs : list rule) : Prop :=
   forall q, In q qs -> dom g (r_from q) /\ dom g (r_to q).
@@ -927,4 +920,288 @@ Proof.
   destruct (Hq q ltac:(now left)) as [Hf Ht].
   pose proof (@P_search_find g rules (base_cache rules) q Hrd Hf Ht (@cache_inv_base g rules Hrd)) as HP.
   unfold r_from, r_to in HP. rewrite HP. cbn [andb]. apply IH. intros x Hx. apply Hq. now right.
+Qed.
+
+(* ================================================================= the handler *)
+
+Lemma extract_from_seen seen objs :
+  (forall o, In o objs -> In (snd o) seen) -> extract_from seen objs = [].
+Proof.
+  induction objs as [|o objs IH]; intros H; cbn [extract_from]; [reflexivity|].
+  assert (existsb (version_eqb (snd o)) seen = true) as ->.
+  { apply existsb_exists. exists (snd o). split; [apply H; now left | apply version_eqb_refl]. }
+  apply IH. intros x Hx. apply H. now right.
+Qed.
+
+Lemma extract_from_all objs : forall seen o, In o objs ->
+  In (snd o) seen \/ In (snd o) (extract_from seen objs).
+Proof.
+  induction objs as [|x objs IH]; intros seen o Ho; [destruct Ho|]. cbn [extract_from].
+  destruct (existsb (version_eqb (snd x)) seen) eqn:E.
+  - destruct Ho as [-> | Ho]; [|now apply IH].
+    left. apply existsb_exists in E. destruct E as (v & Hv & Ev). apply version_eqb_eq in Ev. now subst.
+  - destruct Ho as [-> | Ho]; [right; now left|].
+    destruct (IH (snd x :: seen) o Ho) as [[<- | H] | H]; [right; now left | now left | right; now right].
+Qed.
+
+Lemma is_done_all_at desired objs : is_done desired objs = all_at desired objs.
+Proof.
+  unfold is_done, all_at, extract. destruct objs as [|o objs]; [reflexivity|].
+  destruct (forallb (fun o0 => version_eqb (snd o0) desired) (o :: objs)) eqn:E.
+  - rewrite forallb_forall in E. cbn [extract_from existsb].
+    assert (snd o = desired) as Eo by (apply version_eqb_eq, E; now left).
+    rewrite extract_from_seen.
+    + rewrite Eo. apply version_eqb_refl.
+    + intros x Hx. left. rewrite Eo. symmetry. apply version_eqb_eq, E. now right.
+  - destruct (extract_from [] (o :: objs)) as [|v [|v' l]] eqn:Ex; try reflexivity.
+    destruct (version_eqb v desired) eqn:Ev; [|reflexivity]. apply version_eqb_eq in Ev. subst v.
+    rewrite <- E. symmetry. apply forallb_forall. intros x Hx.
+    destruct (extract_from_all (o :: objs) [] x Hx) as [[] | H]. rewrite Ex in H.
+    destruct H as [<- | []]. apply version_eqb_refl.
+Qed.
+
+Lemma nth_tl A (l : list A) k d : nth (S k) l d = nth k (tl l) d.
+Proof. destruct l; [destruct k; reflexivity | reflexivity]. Qed.
+
+Lemma hd_nth A (l : list A) d : hd d l = nth 0 l d.
+Proof. destruct l; reflexivity. Qed.
+
+Lemma last_out_cons outs i t : t <> [] -> last_out outs (i :: t) = last_out (tl outs) t.
+Proof.
+  intros Hne. unfold last_out. cbn [length]. destruct t as [|j t]; [now contradiction Hne|].
+  cbn [length]. rewrite !Nat.sub_succ, !Nat.sub_0_r. apply nth_tl.
+Qed.
+
+(* what the loop over the chain does, read off its result *)
+Definition stop_ok (desired : version) (chain : list rule) (outs : list outcome)
+           (t : list invocation) (s : stop) : Prop :=
+  match s with
+  | StFailed m =>
+    match last_out outs t with
+    | OExitFail | OBadResponse => m = MHookFailed
+    | ONoResponse => m = MPropError
+    | OResp (Some x) _ => m = MHook x
+    | OResp None _ => False
+    end
+  | StDone o => last_out outs t = OResp None o /\ is_done desired o = true
+  | StNotDone => exists o, last_out outs t = OResp None o /\ is_done desired o = false
+                           /\ length t = length chain
+  end.
+
+Lemma steps_spec desired : forall chain outs objs t s,
+  steps desired chain outs objs = (t, s) ->
+  map fst t = firstn (length t) chain
+  /\ feeds objs outs t = true
+  /\ (chain <> [] -> t <> [])
+  /\ (t = [] -> s = StNotDone /\ chain = [])
+  /\ (t <> [] ->
+      (forall k, S k < length t -> exists o, nth k outs OExitFail = OResp None o /\ is_done desired o = false)
+      /\ stop_ok desired chain outs t s).
+Proof.
+  assert (forall o, objs_eqb o o = true) as Hrefl.
+  { intros o. apply list_eqb_refl. intros [i v]. unfold obj_eqb. cbn [fst snd].
+    now rewrite N.eqb_refl, version_eqb_refl. }
+  induction chain as [|r rest IH]; intros outs objs t s E; cbn [steps] in E.
+  - inversion E; subst. split; [reflexivity|]. split; [reflexivity|]. split; [intros H; now contradiction H|].
+    split; [intros _; now split | intros H; now contradiction H].
+  - assert (forall m, (t, s) = ([(r, objs)], StFailed m) ->
+              match hd OExitFail outs with
+              | OExitFail | OBadResponse => m = MHookFailed
+              | ONoResponse => m = MPropError
+              | OResp (Some x) _ => m = MHook x
+              | OResp None _ => False end ->
+              map fst t = firstn (length t) (r :: rest) /\ feeds objs outs t = true
+              /\ (r :: rest <> [] -> t <> []) /\ (t = [] -> s = StNotDone /\ r :: rest = [])
+              /\ (t <> [] -> (forall k, S k < length t -> exists o, nth k outs OExitFail = OResp None o /\ is_done desired o = false)
+                             /\ stop_ok desired (r :: rest) outs t s)) as Gfail.
+    { intros m E' Hm. inversion E'; subst. cbn [map fst length firstn feeds]. rewrite Hrefl.
+      repeat split; try discriminate.
+      - intros k Hk. cbn in Hk. lia.
+      - unfold stop_ok, last_out. cbn [length Nat.sub]. rewrite <- hd_nth. exact Hm. }
+    destruct (hd OExitFail outs) as [| | |[m|] objs'] eqn:Eh.
+    + apply (Gfail MHookFailed); [now symmetry | reflexivity].
+    + apply (Gfail MHookFailed); [now symmetry | reflexivity].
+    + apply (Gfail MPropError); [now symmetry | reflexivity].
+    + apply (Gfail (MHook m)); [now symmetry | reflexivity].
+    + destruct (is_done desired objs') eqn:Ed.
+      * inversion E; subst. cbn [map fst length firstn feeds]. rewrite Hrefl.
+        repeat split; try discriminate.
+        -- intros k Hk. cbn in Hk. lia.
+        -- unfold last_out. cbn [length Nat.sub]. now rewrite <- hd_nth.
+        -- assumption.
+      * destruct (steps desired rest (tl outs) objs') as [t' s'] eqn:Es. inversion E; subst.
+        destruct (IH _ _ _ _ Es) as (H1 & H2 & H3 & H4 & H5).
+        cbn [map fst length firstn]. rewrite H1.
+        split; [reflexivity|]. split.
+        { cbn [feeds]. rewrite Hrefl. cbn [andb]. destruct t' as [|i t']; [reflexivity|].
+          rewrite Eh. cbn [ok_out]. exact H2. }
+        split; [discriminate|]. split; [discriminate|]. intros _.
+        destruct t' as [|i t'].
+        { destruct (H4 eq_refl) as [-> ->]. split.
+          - intros k Hk. cbn in Hk. lia.
+          - cbn [stop_ok]. exists objs'. unfold last_out. cbn [length Nat.sub]. rewrite <- hd_nth.
+            repeat split; assumption. }
+        destruct (H5 ltac:(discriminate)) as [Hall Hstop]. split.
+        { intros k Hk. destruct k as [|k].
+          - exists objs'. rewrite <- hd_nth. now split.
+          - rewrite nth_tl. apply Hall. cbn [length] in *. lia. }
+        unfold stop_ok in *. rewrite last_out_cons by discriminate.
+        destruct s as [m | o | ]; [exact Hstop | exact Hstop |].
+        destruct Hstop as (o & Ho1 & Ho2 & Ho3). exists o. repeat split; try assumption.
+        cbn [length] in *. lia.
+Qed.
+
+Lemma extract_nonempty o req : extract (o :: req) <> [].
+Proof. unfold extract. cbn [extract_from existsb]. discriminate. Qed.
+
+Lemma convert_cases desired chain outs req t a : convert desired chain outs req = (t, a) ->
+  (req = [] /\ t = [] /\ a = Failed MNotSuccessful)
+  \/ (req <> [] /\ exists s, steps desired chain outs req = (t, s) /\
+        a = match s with
+            | StFailed m => Failed m
+            | StNotDone => Failed MNotSuccessful
+            | StDone objs => if N.eqb (N.of_nat (length req)) (N.of_nat (length objs)) then Success objs
+                             else Failed (MCount (N.of_nat (length objs)) (N.of_nat (length req)))
+            end).
+Proof.
+  unfold convert. destruct req as [|o req].
+  - cbn. intros E; inversion E. left. repeat split.
+  - destruct (extract (o :: req)) as [|v vs] eqn:Ex; [now apply extract_nonempty in Ex|].
+    intros E. right. split; [discriminate|].
+    destruct (steps desired chain outs (o :: req)) as [t' s] eqn:Es. exists s.
+    destruct s as [m | objs |]; [inversion E; now subst | | inversion E; now subst].
+    destruct (N.eqb _ _); inversion E; now subst.
+Qed.
+
+Theorem steps_in_order desired chain outs req t a : convert desired chain outs req = (t, a) ->
+  map fst t = firstn (length t) chain /\ feeds req outs t = true.
+Proof.
+  intros E. apply convert_cases in E. destruct E as [(-> & -> & _) | (_ & s & Es & _)].
+  - split; reflexivity.
+  - destruct (steps_spec _ _ _ _ _ _ Es) as (H1 & H2 & _). now split.
+Qed.
+
+Lemma is_ok_resp o objs : o = OResp None objs -> is_ok o = true.
+Proof. now intros ->. Qed.
+
+(* the position of a step that did not succeed is the last one, and the stop is a failure *)
+Lemma failure_is_last desired chain outs req t s k :
+  steps desired chain outs req = (t, s) -> k < length t -> is_ok (nth k outs OExitFail) = false ->
+  length t = S k /\ last_out outs t = nth k outs OExitFail /\ exists m, s = StFailed m.
+Proof.
+  intros Es Hk Hbad. destruct (steps_spec _ _ _ _ _ _ Es) as (_ & _ & _ & _ & H5).
+  assert (t <> []) as Hne by (destruct t; [cbn in Hk; lia | discriminate]).
+  destruct (H5 Hne) as [Hall Hstop].
+  assert (length t = S k) as El.
+  { destruct (le_lt_dec (length t) (S k)); [lia|]. destruct (Hall k l) as (o & Eo & _).
+    rewrite Eo in Hbad. discriminate. }
+  assert (last_out outs t = nth k outs OExitFail) as Elast.
+  { unfold last_out. rewrite El. now rewrite Nat.sub_succ, Nat.sub_0_r. }
+  split; [assumption|]. split; [assumption|].
+  unfold stop_ok in Hstop. rewrite Elast in Hstop.
+  destruct s as [m | o |]; [now exists m | |].
+  - destruct Hstop as [Eo _]. rewrite Eo in Hbad. discriminate.
+  - destruct Hstop as (o & Eo & _). rewrite Eo in Hbad. discriminate.
+Qed.
+
+Theorem stop_at_first_failure desired chain outs req t a k :
+  convert desired chain outs req = (t, a) -> k < length t -> is_ok (nth k outs OExitFail) = false ->
+  length t = S k /\ exists m, a = Failed m.
+Proof.
+  intros E Hk Hbad. apply convert_cases in E. destruct E as [(_ & -> & _) | (_ & s & Es & ->)]; [cbn in Hk; lia|].
+  destruct (failure_is_last _ _ _ _ _ _ _ Es Hk Hbad) as (H1 & _ & m & ->). split; [assumption | now exists m].
+Qed.
+
+Theorem failed_message_relayed desired chain outs req t a k m objs :
+  convert desired chain outs req = (t, a) -> k < length t ->
+  nth k outs OExitFail = OResp (Some m) objs -> a = Failed (MHook m).
+Proof.
+  intros E Hk Eo. apply convert_cases in E. destruct E as [(_ & -> & _) | (_ & s & Es & ->)]; [cbn in Hk; lia|].
+  assert (is_ok (nth k outs OExitFail) = false) as Hbad by now rewrite Eo.
+  destruct (failure_is_last _ _ _ _ _ _ _ Es Hk Hbad) as (_ & Elast & m' & ->).
+  destruct (steps_spec _ _ _ _ _ _ Es) as (_ & _ & _ & _ & H5).
+  assert (t <> []) as Hne by (destruct t; [cbn in Hk; lia | discriminate]).
+  destruct (H5 Hne) as [_ Hstop]. unfold stop_ok in Hstop. rewrite Elast, Eo in Hstop. now subst.
+Qed.
+
+Theorem success_iff_all_steps_and_count desired chain outs req t a objs :
+  convert desired chain outs req = (t, a) ->
+  (a = Success objs <->
+   t <> [] /\ (forall k, k < length t -> is_ok (nth k outs OExitFail) = true)
+   /\ last_out outs t = OResp None objs /\ all_at desired objs = true /\ length objs = length req).
+Proof.
+  intros E. apply convert_cases in E. destruct E as [(-> & -> & ->) | (Hreq & s & Es & ->)].
+  - split; [discriminate | intros [H _]; now contradiction H].
+  - destruct (steps_spec _ _ _ _ _ _ Es) as (_ & _ & _ & H4 & H5). split.
+    + intros Ea. destruct s as [m | o |]; try discriminate.
+      destruct (N.eqb (N.of_nat (length req)) (N.of_nat (length o))) eqn:Ec; [|discriminate].
+      inversion Ea; subst o. apply N.eqb_eq, Nat2N.inj in Ec.
+      assert (t <> []) as Hne by (intros ->; destruct (H4 eq_refl); discriminate).
+      destruct (H5 Hne) as [Hall [Elast Hd]]. split; [assumption|]. split; [|split; [assumption|split; [|now symmetry]]].
+      * intros k Hk. destruct (le_lt_dec (length t) (S k)) as [Hle | Hlt].
+        -- assert (k = length t - 1) as -> by lia. fold (last_out outs t). now rewrite Elast.
+        -- destruct (Hall k Hlt) as (o & -> & _). reflexivity.
+      * now rewrite <- is_done_all_at.
+    + intros (Hne & _ & Elast & Hat & Hlen). destruct (H5 Hne) as [_ Hstop]. unfold stop_ok in Hstop.
+      rewrite Elast in Hstop. rewrite <- is_done_all_at in Hat. destruct s as [m | o |].
+      * destruct Hstop.
+      * destruct Hstop as [Eo _]. inversion Eo; subst o. rewrite Hlen, N.eqb_refl. reflexivity.
+      * destruct Hstop as (o & Eo & Hd & _). inversion Eo; subst o. congruence.
+Qed.
+
+Lemma list_eqb_rule_refl l : list_eqb rule_eqb l l = true.
+Proof. apply list_eqb_refl, rule_eqb_refl. Qed.
+
+Theorem handler_meets_spec desired chain outs req t a :
+  convert desired chain outs req = (t, a) -> P_handler desired chain outs req t a = true.
+Proof.
+  intros E. pose proof (steps_in_order _ _ _ _ _ _ E) as [Hord Hfeeds].
+  unfold P_handler. rewrite Hfeeds. unfold in_order. rewrite Hord, list_eqb_rule_refl. cbn [andb].
+  apply convert_cases in E. destruct E as [(-> & -> & ->) | (Hreq & s & Es & ->)].
+  - cbn. destruct chain; reflexivity.
+  - destruct (steps_spec _ _ _ _ _ _ Es) as (_ & _ & H3 & H4 & H5).
+    destruct t as [|i t'].
+    + destruct (H4 eq_refl) as [-> ->]. cbn. destruct req; reflexivity.
+    + destruct (H5 ltac:(discriminate)) as [_ Hstop]. unfold stop_ok in Hstop.
+      assert (forall o, objs_eqb o o = true) as Hrefl.
+      { intros o. apply list_eqb_refl. intros [j v]. unfold obj_eqb. cbn [fst snd].
+        now rewrite N.eqb_refl, version_eqb_refl. }
+      unfold runs_to_end, verdict_ok.
+      assert (nonempty (i :: t') = true) as -> by reflexivity.
+      assert ((match chain with [] => true | _ :: _ => match req with [] => true | _ :: _ => true end end) = true) as ->
+          by (destruct chain, req; reflexivity).
+      rewrite andb_true_r.
+      destruct s as [m | o |].
+      * destruct (last_out outs (i :: t')) as [| | |[x|] objs'] eqn:El.
+        -- reflexivity.
+        -- reflexivity.
+        -- reflexivity.
+        -- subst m. cbn. now rewrite N.eqb_refl.
+        -- destruct Hstop.
+      * destruct Hstop as [-> Hd]. rewrite is_done_all_at in Hd. rewrite Hd. cbn [orb andb].
+        destruct (N.eqb (N.of_nat (length req)) (N.of_nat (length o))) eqn:Ec.
+        -- rewrite Hrefl, Hd. apply N.eqb_eq in Ec. rewrite <- Ec, N.eqb_refl. reflexivity.
+        -- rewrite N.eqb_sym, Ec. reflexivity.
+      * destruct Hstop as (o & -> & Hd & Hlen). rewrite is_done_all_at in Hd. rewrite Hd, Hlen, Nat.eqb_refl.
+        reflexivity.
+Qed.
+
+(* ================================================================= statements for C15_Properties *)
+
+Theorem cache_inv_preserved g rules c q : rules_dom g rules -> dom g (r_from q) ->
+  cache_inv g rules c -> cache_inv g rules (fst (find rules c q)).
+Proof. intros Hrd Hf Hinv. now destruct (@find_inv g rules q c Hrd Hf Hinv). Qed.
+
+Theorem find_sound_fresh rules A B p : in_domain rules A B = true ->
+  snd (find rules (base_cache rules) (A, B)) = Some p -> valid_chain rules A B p = true.
+Proof.
+  intros Hd E. apply in_domain_elim in Hd. destruct Hd as (_ & g & HA & HB & Hrd).
+  apply (@find_sound g rules (base_cache rules) (A, B) p Hrd HA HB (@cache_inv_base g rules Hrd) E).
+Qed.
+
+Theorem find_complete_fresh rules A B : in_domain rules A B = true -> reachable rules A B = true ->
+  exists p, snd (find rules (base_cache rules) (A, B)) = Some p.
+Proof.
+  intros Hd Hr. apply in_domain_elim in Hd. destruct Hd as (Hne & g & HA & HB & Hrd).
+  apply (@find_complete g rules (base_cache rules) (A, B) Hrd HA HB Hne (@cache_inv_base g rules Hrd) Hr).
 Qed.
